@@ -423,7 +423,9 @@ func registerType(tov reflect.Type) error {
 			n := int(binary.BigEndian.Uint32(packet[:4]))
 			packet = packet[4:]
 
-			if n > len(packet) {
+			// every element takes at least one byte - unless its type has no content at all (struct{}, [0]T)
+			empty := itemType.Size() == 0
+			if n > len(packet) && empty == false {
 				return nil, nil, fmt.Errorf("incorrect data length %d", n)
 			}
 
@@ -451,6 +453,10 @@ func registerType(tov reflect.Type) error {
 				_, p, err := dec.Decode(&item, packet, state)
 				if err != nil {
 					return nil, nil, err
+				}
+				if empty && len(p) == len(packet) {
+					// nothing was read and there is nothing to tell such elements apart: the rest is the same
+					break
 				}
 				packet = p
 			}
